@@ -7,14 +7,15 @@ sys.path.insert(0, os.path.join(os.path.dirname(os.path.dirname(os.path.abspath(
 import gen_samples as G  # noqa
 
 PROP = "C01"
-AREAS = ["kmer", "segment", "pipeline", "groupstore", "tuple", "lz", "collection"]   # the last four: composition theorems
+AREAS = ["kmer", "segment", "pipeline", "groupstore", "tuple", "lz", "collection", "splitpos"]   # the last four: composition theorems
 THEOREMS = ["rc_seq_eq_rc_dec", "rc_pre_eq_rc_dec", "rc_dec_involutive", "orient_ok", "split_overlap",
             "part_numbers_dense", "reassemble", "placement_order_irrelevant", "duplicate_name_rejected",
             "create_extract_roundtrip",
             # composition (proofs/Compose_codecs.v, proofs/Compose_proofs.v): C09 + C12 + C02 + C01 end to end
             "codecs_instance", "codecs_instance_total", "store_then_get_concrete", "stored_ok_from_groupstore",
             "end_to_end_roundtrip", "store_addr_consistent", "ops_rounds_carry", "pieces_in_dom_from_inputs",
-            "end_to_end_inputs", "end_to_end_store_addr", "end_to_end_catalogue"]
+            "end_to_end_inputs", "end_to_end_store_addr", "end_to_end_catalogue",
+            "split_post_source_pinned", "heuristic_split_positions_ok"]
 PROFILES = ["dev", "release"]
 PROFILES_QUICK = ["dev"]
 RULE = ("trace validation on real archives: case `dt <dir> <params>` = a sample set laid out as FASTA files, compressed by "
